@@ -16,7 +16,7 @@ ID = 'C05'
 LEVEL = 'exploration'
 RULE = ('Engine A: lattice of pre-test pairs (x, y): n in {4,5,6,8,12} x 5 control shapes x noise patterns (pairs with zero '
         'residual variance dropped by the reference model and counted) x n_test in {1,2,5} x sig in {0.8,0.9,0.95} x power '
-        'in {0.6,0.8,0.9} x flevel in {0.9,0.99} (quick: a 12-point parameter sub-grid). Oracle: (1) design-side required '
+        'in {0.6,0.8,0.9} x flevel in {0.9,0.99} (quick: a 12-point parameter sub-grid), plus parameter objects that differ in fields the formula must ignore (n_pretest_max smaller than the series, iroas, rho_max, min_corr, n_designs, n_geos_max). Oracle: (1) design-side required '
         'impact == closed form (t_sig + t_pow) * n_test * sigma * sqrt(phi (n+1)/(n n_test (n-1)) + 1/n + 1/n_test); (2) two '
         'real code paths against each other: an experiment frame whose test-period control mean is displaced by dx = '
         'sqrt(phi (n+1) Sxx / (n n_test (n-1))) and whose treatment shows exactly lift = required impact is analysed by '
@@ -39,6 +39,13 @@ def cases(tier, seed):
                 for amp in (1, 3):
                     for par in (PARAMS_ALL if tier == 'thorough' else PARAMS_Q):
                         out.append({'n': n, 'shape': sh, 'noise': noise, 'amp': amp, 'seed': seed, 'par': par})
+                    # the series handed to the diagnostics object is what counts: other parameter fields (a small
+                    # n_pretest_max, iroas, min_corr, rho_max, n_designs ...) must not enter the required impact
+                    for extra in ({'n_pretest_max': 3}, {'n_pretest_max': n - 1, 'rho_max': 0.9, 'min_corr': 0.95},
+                                  {'iroas': 4.0, 'n_designs': 7, 'n_geos_max': 2}):
+                        if extra.get('n_pretest_max', 3) >= 3:
+                            out.append({'n': n, 'shape': sh, 'noise': noise, 'amp': amp, 'seed': seed,
+                                        'par': dict(PARAMS_Q[(n + noise) % len(PARAMS_Q)], **extra)})
     return out
 
 
@@ -57,7 +64,7 @@ def run_case(case):
     fit = rstats.ols(x, y)
     if fit['s2'] <= 1e-12 or fit['sxx'] <= 0:
         return {'viol': [], 'nontrivial': False, 'outcome': 'degenerate', 'counts': {'degenerate_pairs_dropped': 1}}
-    par = TBRMMDesignParameters(iroas=1.0, **p)
+    par = TBRMMDesignParameters(**dict({'iroas': 1.0}, **p))
     d = TBRMMDiagnostics(y, par)
     d.x = x
     RI = d.required_impact
